@@ -25,11 +25,11 @@ pub const CAP: usize = 6;
 /// Ghost observer of call-out states.  The tables of a collected group are destroyed at the same
 /// program point as the members' values (`drop(inners)`), so a check made from the stand-in's `Drop`
 /// sees exactly the states in which user destructors run.  To keep CBMC's model small the observer is
-/// not a function pointer: harnesses register up to two (strong, weak) counter cells and the values
+/// not a function pointer: harnesses register up to three (strong, weak) counter cells and the values
 /// they must have at every call-out; `Drop` of a tagged table asserts them.
-pub static mut OBS_STRONG: [*const core::cell::Cell<usize>; 2] = [core::ptr::null(); 2];
-pub static mut OBS_WEAK: [*const core::cell::Cell<usize>; 2] = [core::ptr::null(); 2];
-pub static mut OBS_EXPECT_WEAK: [usize; 2] = [0; 2];
+pub static mut OBS_STRONG: [*const core::cell::Cell<usize>; 3] = [core::ptr::null(); 3];
+pub static mut OBS_WEAK: [*const core::cell::Cell<usize>; 3] = [core::ptr::null(); 3];
+pub static mut OBS_EXPECT_WEAK: [usize; 3] = [0; 3];
 /// Number of tagged (non-zero tag) tables destroyed so far.
 pub static mut TAGGED_DROPS: usize = 0;
 /// tables constructed minus tables destroyed (a forgotten table keeps this positive)
@@ -96,7 +96,7 @@ impl<K, V> Drop for HashMap<K, V> {
             if self.tag != 0 {
                 TAGGED_DROPS += 1;
                 let mut i = 0;
-                while i < 2 {
+                while i < 3 {
                     if !OBS_STRONG[i].is_null() {
                         kani::assert((*OBS_STRONG[i]).get() == usize::MAX, "U6.callout.every_registered_member_already_gone");
                         kani::assert((*OBS_WEAK[i]).get() == OBS_EXPECT_WEAK[i], "U6.callout.no_registered_member_released_yet");
